@@ -18,6 +18,7 @@ type Scope struct {
 	old     *State
 	oldVars map[string]Value
 	callee  bool
+	oldLocals bool // old() is an iteration-start state: locals resolve in it as well
 }
 
 func (sc *Scope) with(vars map[string]Value) *Scope {
